@@ -69,6 +69,11 @@ def gen_tu(c, t):
             tu.add(w, '%s& out, const %s& a' % (A, A), 'out = -a;', kind=kind, op='neg')
         elif kind == 'negate':
             tu.add(w, '%s& a' % A, 'a.negate();', kind=kind, op='neg')
+    if c == 'S6':
+        # scalar * Shear6<T> is a template over the scalar type S: the product is formed in the common type of S and T
+        E2 = ELEM['d' if t == 'f' else 'f'][0]
+        tu.add('ref_lscmix', '%s& o, const %s& s, const %s& a' % (E, E2, E), 'o = %s(s * a);' % E, kind='ref')
+        tu.add('w_lscmix_mul', '%s& out, const %s& s, const %s& a' % (A, E2, A), 'out = s * a;', kind='lscmix', op='lscmix')
     # equality family
     tu.add('w_eq', 'bool& o, const %s& a, const %s& b' % (A, A), 'o = (a == b);', kind='eq', op='eq')
     tu.add('w_ne', 'bool& o, const %s& a, const %s& b' % (A, A), 'o = (a != b);', kind='eq', op='ne')
@@ -183,14 +188,14 @@ def check_tu(rep, an, tu, c, t):
         oid = '%s::%s' % (pre, name[2:])
         S = an.get(name)
         if S is None:
-            rep.ob(oid, 'R04.' + ('cw' if kind in ('bin', 'binassign', 'sc', 'scassign', 'lsc', 'neg', 'negate') else 'eq' if kind == 'eq' else 'map'),
+            rep.ob(oid, 'R04.' + ('cw' if kind in ('bin', 'binassign', 'sc', 'scassign', 'lsc', 'lscmix', 'neg', 'negate') else 'eq' if kind == 'eq' else 'map'),
                    UNDECIDED, an.err.get(name, 'not analysed'))
             continue
         where = fn_where(S.fn)
         if any(e.kind != 'ret' for e in S.exits):
             rep.ob(oid, 'R04.cw', VIOLATED, 'component-wise operation has a non-returning exit (%s)' % [e.kind for e in S.exits], where)
             continue
-        if kind in ('bin', 'binassign', 'sc', 'scassign', 'lsc', 'neg', 'negate'):
+        if kind in ('bin', 'binassign', 'sc', 'scassign', 'lsc', 'lscmix', 'neg', 'negate'):
             op = m['op']
             r = ref_out('ref_' + op)
             if r is None:
@@ -204,6 +209,7 @@ def check_tu(rep, an, tu, c, t):
                 elif kind == 'sc': mp = {s_in('a1'): a_in('a1', i), s_in('a2'): s_in('a2')}
                 elif kind == 'scassign': mp = {s_in('a1'): a_in('a0', i), s_in('a2'): s_in('a1')}
                 elif kind == 'lsc': mp = {s_in('a1'): s_in('a1'), s_in('a2'): a_in('a2', i)}
+                elif kind == 'lscmix': mp = {s_in('a2'): a_in('a2', i)}
                 elif kind == 'neg': mp = {s_in('a1'): a_in('a1', i)}
                 elif kind == 'negate': mp = {s_in('a1'): a_in('a0', i)}
                 exp = inst(r, mp)
